@@ -38,6 +38,10 @@ pub struct World {
     pub cat: Vec<Entry>,
     pub seeds: Vec<Seed>,
     pub tuning: Tuning,
+    /// Machinery validation only (env C09_INJECT_ABORT="<entry name>|<hex
+    /// prefix>"): abort the process when that entry point is about to be called
+    /// with an input starting with that prefix.
+    pub inject: Option<(usize, Vec<u8>)>,
 }
 
 #[derive(Default, Clone, Debug)]
@@ -131,7 +135,21 @@ impl World {
     pub fn new(tuning: Tuning) -> World {
         let cat = entries::catalogue();
         let seeds = seeds::build(&cat);
-        World { cat, seeds, tuning }
+        let inject = std::env::var("C09_INJECT_ABORT").ok().and_then(|v| {
+            let (name, hexp) = v.split_once('|')?;
+            Some((entries::find(&cat, name), hex::decode(hexp).ok()?))
+        });
+        World { cat, seeds, tuning, inject }
+    }
+
+    #[inline]
+    fn call(&self, id: usize, input: &[u8], cheap: bool) -> entries::CallOut {
+        if let Some((e, prefix)) = &self.inject {
+            if *e == id && input.starts_with(prefix) {
+                std::process::abort();
+            }
+        }
+        (self.cat[id].call)(input, cheap)
     }
 
     pub fn cheap(seed: &Seed) -> bool {
@@ -296,7 +314,7 @@ impl World {
                     let ei = (c % e) as usize;
                     let id = seed.entries[ei];
                     journal(c);
-                    let out = (self.cat[id].call)(inp, cheap);
+                    let out = self.call(id, inp, cheap);
                     self.record(&mut r, c, id, out, &[&base[ei]], class, cheap);
                 }
             }
@@ -323,7 +341,7 @@ impl World {
                     let ei = (c % e) as usize;
                     let id = sa.entries[ei];
                     journal(c);
-                    let out = (self.cat[id].call)(&input, cheap);
+                    let out = self.call(id, &input, cheap);
                     self.record(&mut r, c, id, out, &[&base_a[ei], &base_b[ei]], "splice", cheap);
                 }
             }
@@ -333,7 +351,7 @@ impl World {
                 for c in lo..hi {
                     let inp = faults::short_string(c);
                     journal(c);
-                    let out = (self.cat[*id].call)(&inp, false);
+                    let out = self.call(*id, &inp, false);
                     self.record(&mut r, c, *id, out, &[&base], "short-string", false);
                 }
             }
